@@ -4,7 +4,7 @@
    (the concatenation of its segments); [adv k b b'] says b' is b with the first k of them consumed. *)
 From Coq Require Import List String NArith Bool Permutation.
 From FB Require Import Gen.BytesDelegation Model.Transport Proofs.Transport Proofs.TransportMachine
-     Proofs.TransportFuse Proofs.TransportAdapter.
+     Proofs.TransportFamily Proofs.TransportFuse Proofs.TransportAdapter.
 Import ListNotations.
 Local Open Scope N_scope.
 
@@ -110,6 +110,18 @@ Theorem C04_stores_persist : forall ops st, wf_st st -> NoDup (live (v_wr st)) -
   exists log rlog, step_post st (snd (vrun ops st)) log rlog /\
     NoDup (map fst log) /\ forall a v, In (a, v) log -> mget (v_mem (snd (vrun ops st))) a = v.
 Proof. exact stores_persist. Qed.
+(* order along one handle, for any interleaving of operations on the whole family (reads, splits, writes, ...):
+   the addresses consumed through reader i in time order ([fst (h_trace ...)], each delivery being the bytes at
+   these addresses by C04_read/_read_exact/_read_to), then what it still covers, then what it handed to readers
+   split off from it (latest split first) are exactly what it covered at the start, in order; same for writers *)
+Theorem C04_reader_order : forall ops st i b, wf_st st -> nth_error (v_rd st) i = Some b ->
+  exists b', nth_error (v_rd (snd (vrun ops st))) i = Some b' /\
+    flat (segs b) = fst (h_trace v_rd i ops st) ++ flat (segs b') ++ snd (h_trace v_rd i ops st).
+Proof. exact reader_order. Qed.
+Theorem C04_writer_order : forall ops st i b, wf_st st -> nth_error (v_wr st) i = Some b ->
+  exists b', nth_error (v_wr (snd (vrun ops st))) i = Some b' /\
+    flat (segs b) = fst (h_trace v_wr i ops st) ++ flat (segs b') ++ snd (h_trace v_wr i ops st).
+Proof. exact writer_order. Qed.
 (* operations that are not writes leave memory alone *)
 Theorem C04_nonwrite_keeps_memory : forall op st, is_write_op op = false ->
   v_mem (snd (vstep op st)) = v_mem st /\ v_dirty (snd (vstep op st)) = v_dirty st.
@@ -242,6 +254,10 @@ Proof.
   - split; [apply nodupb_sound; vm_compute; reflexivity|].
     split; vm_compute; reflexivity.
 Qed.
+Example C04_nonvacuous_order :
+  h_trace v_rd 0 ex_ops ex_state = ([4100; 4101; 4102], [65542]) /\
+  h_trace v_wr 0 ex_ops ex_state = ([8190; 8191; 8192; 8193; 65600], [65601; 65602; 65603; 65604; 65605]).
+Proof. split; vm_compute; reflexivity. Qed.
 Example C04_nonvacuous_fusedev :
   let w := mkfdw false 1000 0 16 in
   f_inv w /\ f_oneshot_ok w /\ f_wf (mkf (mem_init 1) [w] []) /\
@@ -275,6 +291,8 @@ Print Assumptions C04_write_vectored.
 Print Assumptions C04_write_from.
 Print Assumptions C04_stores_read_back.
 Print Assumptions C04_run.
+Print Assumptions C04_reader_order.
+Print Assumptions C04_writer_order.
 Print Assumptions C04_frame.
 Print Assumptions C04_stores_persist.
 Print Assumptions C04_nonwrite_keeps_memory.
